@@ -1,4 +1,13 @@
 //! Kani proof harnesses for simple-dns (engine K).  Mounted under `crate::dns` by the overlay
 //! builder in /verif/lib/kani_runner.py, so crate-private items are reachable without hooks.
 pub(crate) mod util;
+pub(crate) mod gen_tables;
+mod gen_c01;
+mod gen_c18;
+mod c01;
 mod c08;
+mod c09;
+mod c12;
+mod c17;
+mod c18;
+mod c19;
